@@ -6,6 +6,7 @@ import VyxalModel.Model.Transpile
 import VyxalModel.Model.PyDump
 import VyxalModel.Gen.Elements
 import VyxalModel.Gen.Modifiers
+import VyxalModel.Model.LazyList
 import VyxalModel.Gen.Codepage
 /-! Line protocol: `cmd<TAB>argument`; one answer line per request. -/
 open Vy
@@ -27,6 +28,36 @@ def transpileCmd (dict : Bool) (src : List Nat) : String :=
   | .ok tree => match transpileAst (genEnv dict) tree with
     | .ok py => PyAst.dumpSL py
     | .error e => showTErr e
+
+def parseIntS (s : String) : Int := s.toInt?.getD 0
+def parseOptInt (s : String) : Option Int := if s == "N" then none else s.toInt?
+def parseInts (s : String) : List Int := if s.isEmpty then [] else (s.splitOn " ").filterMap String.toInt?
+
+def parseObs (src : List Int) (s : String) : Option LLM.Obs :=
+  match s.splitOn ":" with
+  | ["g", i] => some (.getItem (parseIntS i))
+  | ["s", a, b, c] => some (.slice (parseOptInt a) (parseOptInt b) ((parseOptInt c).getD 1))
+  | ["len"] => some .len | ["iter"] => some .iter | ["bool"] => some .bool
+  | ["c", x] => some (.contains (parseIntS x))
+  | ["e", k] => some (.eq (match k with | "0" => src | "1" => src ++ [0] | _ => []))
+  | ["n", x] => some (.count (parseIntS x))
+  | ["rev"] => some .reversed | ["copy"] => some .copy | ["lst"] => some .listify
+  | ["copyg", i] => some (.copyGet (parseIntS i))
+  | _ => none
+
+def showAns : LLM.Ans → String
+  | .int i => toString i
+  | .list l => "[" ++ ",".intercalate (l.map toString) ++ "]"
+  | .err => "ERR IndexError"
+
+def llCmd (arg : String) : String :=
+  match arg.splitOn "|" with
+  | [srcS, opsS] =>
+    let src := parseInts srcS
+    let ops := (if opsS.isEmpty then [] else opsS.splitOn " ").filterMap (parseObs src)
+    let (as, _) := LLM.runObs (LLM.LL.fresh src) ops
+    " ; ".intercalate (as.map showAns)
+  | _ => "BADARG"
 
 def answer (cmd arg : String) : String :=
   match cmd with
@@ -56,6 +87,7 @@ def answer (cmd arg : String) : String :=
       | .ok r => showOptCps (some r)
       | .error .syntax => "ERR syntax"
       | .error .unmodelled => "ERR unmodelled")
+  | "ll" => llCmd arg
   | _ => "BADCMD"
 
 partial def loop (h : IO.FS.Stream) (out : IO.FS.Stream) : IO Unit := do
